@@ -163,6 +163,9 @@ fn gen_e4(rng: &mut Rng) -> J {
     // a third of the label runs are handed a valid start configuration of another group
     if rng.chance(0.33) && sc.valid_args() {
         sc.fault = "start-config-other-group".into();
+    } else if rng.chance(0.25) {
+        // longer files of an earlier run lie at the output path
+        sc.fault = "stale-output".into();
     }
     sc.to_json().set("mode", J::str("labels"))
 }
@@ -177,6 +180,7 @@ fn exec_e4(j: &J) -> Result<RunOut, String> {
     out.sample = Some(r.sample());
     out.count(&format!("probe.cli_group/{}", sc.group), 1);
     out.count("fault.F-args(start configuration of another group supplied)", (sc.fault == "start-config-other-group") as u64);
+    out.count("fault.F-stale(output files existed before the run)", (sc.fault == "stale-output") as u64);
     out.count(&format!("probe.cli_shape/{}", sc.shape), 1);
     if r.code != Some(0) {
         // success/failure of the process is C20's subject; without output there is nothing to label
